@@ -59,6 +59,10 @@ def handleScheme : List String → Option String
       | .internal w => "internal " ++ w
       | .tagerr => "tagerr"
       | .panic => "panic")
+  | ["desenc", v] => some (toHex (Codec.desEncodeInt v.toNat!))
+  | ["desdec", t] => do
+    let t ← ofHex t
+    pure (toString (Codec.desDecodeInt t))
   | ["params", scheme, h] => do
     let S ← byName scheme
     let h ← ofHex h
